@@ -7,9 +7,11 @@ ExtendedTags model Model/XTags.lean.  Proofs: Lemmas/Storage.lean.  The order of
 from Gen/StorageTables.lean, regenerated from the current source on every run.
 -/
 import EzdxfVerif.Lemmas.Storage
+import EzdxfVerif.Lemmas.StorageDoc
+import EzdxfVerif.Lemmas.StorageIdem
 
 namespace EzdxfVerif.Props.C02
-open EzdxfVerif.XTags EzdxfVerif.Storage EzdxfVerif.Gen.StorageTables
+open EzdxfVerif.XTags EzdxfVerif.Storage EzdxfVerif.StorageDoc EzdxfVerif.Gen.StorageTables
 
 /-! ## one entity / object of a type ezdxf does not implement -/
 
@@ -51,12 +53,29 @@ theorem storage_idempotent (alive : V → Bool) (t : List Tag) (h : entityWF ali
   obtain ⟨hw, ho⟩ := canon_wf alive t h
   exact ⟨canon t, storage_roundtrip alive t h, storage_identity alive (canon t) hw ho⟩
 
-/- OPEN, not proved (stronger than the planned statement): the fixed-point property without `EntityWF`,
-     theorem storage_idempotent_any (alive) (t u) (h : roundtrip alive t = .ok u) : roundtrip alive u = .ok u
-   Reason: outside `EntityWF` the output is not `canon t` (tags are dropped, merged, or a closing (102, "}") is added), so the
-   proof needs a second normal form for every exclusion.  Checked instead on every input of the correspondence stream X1
-   (model and real code, about 3000 malformed inputs per quick run) and pinned for the individual exclusions by the
-   counterexample theorems below (e.g. `alt_close_counterexample` includes the fixed point). -/
+/-- Session 3 (formerly the open statement `storage_idempotent_any`): load -> save is a PROJECTION.  For EVERY tag list the
+    loader accepts - no `EntityWF`, no assumption on order, duplicates, foreign base-class tags, alternative closing tags,
+    dangling extension dictionaries, invalid XDATA codes … - the output of the first cycle is a fixed point of load -> save.
+    The only hypothesis: the reactor handles have pairwise different numeric values (`tieFree`; CPython orders equal keys of a
+    set by hash, such inputs are outside the model).  Proof: `Loaded` is an invariant of every result of `load`
+    (Lemmas/StorageIdem.lean); the written tags of a `Loaded` entity are re-read into an entity that differs only in normalised
+    fields (handle / owner present, extension dictionary resolved, reactors sorted) and is written identically. -/
+theorem storage_idempotent_any (alive : V → Bool) (t u : List Tag) (e : Ent) (hl : load t = .ok e)
+    (htie : tieFree e = true) (h : roundtrip alive t = .ok u) : roundtrip alive u = .ok u :=
+  roundtrip_idempotent_any alive t u e hl htie h
+
+/-- After fix 4273c5184 (`Reactors.from_tags` ignores values that are no valid handles; `Gen.reactorsDropInvalid`, regenerated
+    from the source, is true): export never fails after load - whatever the loader accepts is written, `Reactors.get` cannot
+    raise ValueError (`badReactor`) any more.  Reverting the fix flips the regenerated flag and re-opens this theorem. -/
+theorem export_never_fails_after_load (alive : V → Bool) (t : List Tag) (e : Ent) (h : load t = .ok e) :
+    ∃ u, exportEnt alive e = .ok u ∧ roundtrip alive t = .ok u := by
+  obtain ⟨u, hu⟩ := export_total rfl alive t e h
+  exact ⟨u, hu, by simp only [roundtrip, h, hu]⟩
+
+/-- the explicit normal form: every loaded entity satisfies `Loaded` (closed application-data groups with distinct names, each
+    ending with the plain (102, "}"); distinct reactor handles; subclasses / embedded objects / XDATA sets split exactly where
+    `ExtendedTags` splits them; XDATA sets with distinct appids and valid group codes only) -/
+theorem loaded_normal_form (t : List Tag) (e : Ent) (h : load t = .ok e) : Loaded e := load_loaded t e h
 
 /-- nothing is lost and nothing is invented -/
 theorem storage_nothing_lost (alive : V → Bool) (t : List Tag) (h : entityWF alive t = true) :
@@ -302,6 +321,305 @@ theorem thumbnail_dropped_counterexample : (passSections fileRecs).toOption = so
 theorem dup_section_name_counterexample : (passSections dupSection).toOption = some dupSectionOut := by
   decide +kernel
 
+/-! ## session 3: whole files (Model/StorageDoc.lean: factory dispatch, entity linker, ENTITIES / OBJECTS, export_sections) -/
+
+/-- The entity linker neither links nor swallows a record of a type ezdxf does not implement: the entities of the entity space
+    whose main record is unknown are exactly the unknown records of the section, in file order, each without sub-records.
+    (Which types count as unknown is `Gen.registeredTypes`, regenerated from the live `factory.ENTITY_CLASSES`.) -/
+theorem linker_keeps_unknown (cfg : DocCfg) (recs : List Rec) (gs : List (Rec × List Rec))
+    (h : linkRecs cfg recs none = .ok gs) :
+    gs.filter (fun g => isUnknown g.1) = (recs.filter isUnknown).map (fun r => (r, [])) :=
+  linkRecs_unknown cfg recs none gs (by intro p ch e hc; cases hc) h
+
+/-- ENTITIES section: load -> save writes the entities of the modelspace, then those of the active paperspace, each group in
+    file order; an unknown record whose tags are EntityWF is written as `canon r`, an implemented one as its class writes it -/
+theorem entities_passthrough (cfg : DocCfg) (recs : List Rec) (gs : List (Rec × List Rec))
+    (hl : linkRecs cfg recs none = .ok gs)
+    (hwf : ∀ r ∈ recs, isUnknown r = true → entityWF cfg.alive r = true) :
+    entitiesPass cfg recs = .ok ((gs.filter (fun g => !pspOf cfg g)).flatMap (written cfg)
+      ++ (gs.filter (fun g => pspOf cfg g)).flatMap (written cfg)) :=
+  entitiesPass_ok cfg recs gs hl hwf
+
+/-- … hence the unknown entities of the written ENTITIES section are the unknown records of the input: first those of the
+    modelspace, then those of the active paperspace (owner handle, paperspace flag as fall back), each part in file order -/
+theorem entities_unknown_order (cfg : DocCfg) (recs : List Rec) (gs : List (Rec × List Rec))
+    (hl : linkRecs cfg recs none = .ok gs) :
+    ((gs.filter (fun g => !pspOf cfg g)) ++ (gs.filter (fun g => pspOf cfg g))).filter (fun g => isUnknown g.1)
+      = (((recs.filter isUnknown).filter (fun r => !unknownPsp cfg r))
+          ++ ((recs.filter isUnknown).filter (fun r => unknownPsp cfg r))).map (fun r => (r, [])) := by
+  have h := linker_keeps_unknown cfg recs gs hl
+  have e1 : ∀ (p : Bool → Bool), (gs.filter (fun g => p (pspOf cfg g))).filter (fun g => isUnknown g.1)
+      = ((recs.filter isUnknown).filter (fun r => p (unknownPsp cfg r))).map (fun r => (r, [])) := by
+    intro p
+    have hc : (gs.filter (fun g => p (pspOf cfg g))).filter (fun g => isUnknown g.1)
+        = (gs.filter (fun g => isUnknown g.1)).filter (fun g => p (unknownPsp cfg g.1)) := by
+      simp only [List.filter_filter]
+      apply List.filter_congr
+      intro g _
+      by_cases hu : isUnknown g.1 = true
+      · simp [pspOf, hu]
+      · simp only [Bool.not_eq_true] at hu; simp [hu]
+    rw [hc, h, List.filter_map]
+    rfl
+  rw [List.filter_append, e1 (fun b => !b), e1 (fun b => b), List.map_append]
+
+/-- the layout decision for a well-formed unknown entity in terms of its input tags: the value of its (single) owner tag is
+    compared with the handles of *Model_Space and *Paper_Space; otherwise the first (67, flag) of the AcDbEntity subclass decides -/
+theorem unknown_layout_spec (cfg : DocCfg) (r : Rec) (h : entityWF cfg.alive r = true) (hty : recType r ≠ .str sAcDbEntity) :
+    ∃ t0 tl items rest, r = t0 :: tl ∧ parseItems (hcOf t0.val) tl none = some (items, rest)
+      ∧ unknownPsp cfg r = (if oOf items == some cfg.msp then false else if oOf items == some cfg.psp then true
+          else paperFlag (collectGroups (fun t => t.code == 100) isEndOfClass rest).1) :=
+  unknownPsp_spec cfg r h hty
+
+/-- OBJECTS section: every record is written in file order (unknown: `canon r`), behind them the objects ezdxf creates itself -/
+theorem objects_passthrough (cfg : DocCfg) (recs : List Rec) (appended : List Tag)
+    (hwf : ∀ r ∈ recs, isUnknown r = true → entityWF cfg.alive r = true) :
+    objectsPass cfg recs appended = .ok (recs.flatMap (fun r => written cfg (r, [])) ++ appended) :=
+  objectsPass_ok cfg recs appended hwf
+
+/-- BLOCKS section: a section made of named BLOCK … ENDBLK definitions (content without BLOCK / ENDBLK; the linker accepts it)
+    is written in the order of the BLOCK_RECORD table (`order`): BLOCK, the entities of the definition in file order (unknown:
+    `canon r`; nothing for *Model_Space / the active *Paper_Space, whose entities live in ENTITIES), ENDBLK -/
+theorem blocks_passthrough (cfg : DocCfg) (bc : BlockCfg) (order : List V) (orphan : V → List Tag) (recs : List Rec)
+    (bs : List BlockDef) (hl : linkRecs cfg recs none = .ok (bs.flatMap BlockDef.groups)) (hb : ∀ d ∈ bs, d.WF bc)
+    (hwf : ∀ d ∈ bs, ∀ g ∈ d.content, isUnknown g.1 = true → entityWF cfg.alive g.1 = true) :
+    blocksPass cfg bc order orphan recs = .ok (order.flatMap (blockWritten cfg bc orphan bs)) :=
+  blocksPass_ok cfg bc order orphan recs bs hl hb hwf
+
+/-- Whole file: `ezdxf.read` -> `doc.write` of a well-formed file (distinct section names; a HEADER of (9, $name), value pairs;
+    CLASSES holds standard entries with distinct (name, C++ class) keys; the unknown records of BLOCKS, ENTITIES and OBJECTS are
+    EntityWF; the entity linker accepts BLOCKS and ENTITIES; BLOCKS is made of named definitions; ACDSDATA records have the
+    documented form) writes, in this order: HEADER (`headerPass`: known variables by priority, custom properties - see
+    `header_custom_props`), CLASSES (the entries of the file verbatim, then the classes ezdxf registers), TABLES, BLOCKS, ENTITIES,
+    OBJECTS with the unknown entities / objects as stated above, ACDSDATA verbatim (when it holds a record), then every unknown
+    section verbatim in input order, then EOF.  `other .tables` = output of TABLES (C01 / C04). -/
+theorem file_passthrough (cfg : DocCfg) (bc : BlockCfg) (order : List V) (orphan : V → List Tag) (ver : Nat) (verText : V)
+    (extra : List ClassE) (other : SectionPart → List Tag) (appended : List Tag) (secs : List Sec)
+    (hwf : ∀ s ∈ secs, secWF s = true) (hn : (secs.map (fun s => s.name)).Nodup)
+    (groups : List (V × V)) (hh : (headerOf secs).bind headerGroupsOf = some groups)
+    (es : List StdClass) (hc : bodyOf secs sCLASSES = es.map (fun c => c.record (decide (1018 ≤ ver))))
+    (hk : (es.map (fun c => (c.name, c.cpp))).Nodup)
+    (hA : ∀ r ∈ bodyOf secs sACDSDATA, acdsRecWF r = true)
+    (bs : List BlockDef) (hlb : linkRecs cfg (bodyOf secs sBLOCKS) none = .ok (bs.flatMap BlockDef.groups))
+    (hb : ∀ d ∈ bs, d.WF bc)
+    (hB : ∀ d ∈ bs, ∀ g ∈ d.content, isUnknown g.1 = true → entityWF cfg.alive g.1 = true)
+    (gs : List (Rec × List Rec)) (hl : linkRecs cfg (bodyOf secs sENTITIES) none = .ok gs)
+    (hE : ∀ r ∈ bodyOf secs sENTITIES, isUnknown r = true → entityWF cfg.alive r = true)
+    (hO : ∀ r ∈ bodyOf secs sOBJECTS, isUnknown r = true → entityWF cfg.alive r = true) :
+    loadSaveFile cfg bc order orphan ver verText extra other appended (fileOf secs) = .ok
+      ((secHead sHEADER ++ headerTagsOf ver (headerPass ver verText groups) ++ [endsecTag])
+        ++ (secHead sCLASSES ++ (es.flatMap (fun c => c.record (decide (1018 ≤ ver)))
+              ++ classesTail (decide (1018 ≤ ver)) es extra) ++ [endsecTag])
+        ++ other .tables
+        ++ (secHead sBLOCKS ++ order.flatMap (blockWritten cfg bc orphan bs) ++ [endsecTag])
+        ++ (secHead sENTITIES ++ ((gs.filter (fun g => !pspOf cfg g)).flatMap (written cfg)
+              ++ (gs.filter (fun g => pspOf cfg g)).flatMap (written cfg)) ++ [endsecTag])
+        ++ (secHead sOBJECTS ++ ((bodyOf secs sOBJECTS).flatMap (fun r => written cfg (r, [])) ++ appended) ++ [endsecTag])
+        ++ acdsWritten secs ++ (secs.filter unmanaged).flatMap Sec.tags ++ [eofTag]) :=
+  loadSaveFile_ok cfg bc order orphan ver verText extra other appended secs hwf hn groups hh es hc hk hA bs hlb hb hB gs hl hE hO
+
+/-- the types the theorems above treat as implemented are the keys of the live factory table; the sub-entity types and the
+    main types of the linker are among them (otherwise the linker could swallow an unknown record) -/
+theorem linker_types_registered :
+    (sSEQEND ∈ registeredTypes ∧ sSEQEND ∉ storageTypes) ∧ ∀ p ∈ linkedEntities,
+      (p.1 ∈ registeredTypes ∧ p.1 ∉ storageTypes) ∧ (p.2 ∈ registeredTypes ∧ p.2 ∉ storageTypes) :=
+  ⟨seqend_registered, linked_registered⟩
+
+/-! ## session 3: CLASSES section (DXFClass.load_tags / export_dxf, ClassesSection.load / register / export_dxf) -/
+
+/-- one CLASS entry in the standard form is read and written back tag for tag (R2004+ with, R2000 without instance count) -/
+theorem class_entry_roundtrip (c : StdClass) (r2004 : Bool) :
+    (classLoad (c.record r2004)).map (classExport r2004) = some (c.record r2004) := by
+  rw [classLoad_std, Option.map_some, classExport_std]
+
+/-- CLASS entries with pairwise different (name, C++ class name) keys survive load -> save verbatim and in file order, in front
+    of the classes `add_required_classes` registers at save time (`extra`); the instance counts are NOT recomputed -/
+theorem classes_section_passthrough (r2004 : Bool) (es : List StdClass) (extra : List ClassE)
+    (hk : (es.map (fun c => (c.name, c.cpp))).Nodup) :
+    ∃ tail, classesPass r2004 (es.map (fun c => c.record r2004)) extra
+      = some (es.flatMap (fun c => c.record r2004) ++ tail) :=
+  classesPass_std r2004 es extra hk
+
+open EzdxfVerif.Storage.Ex in
+/-- CLASS entries outside the standard form (replayed on the real code, E1): a tag with another group code, an application
+    group and XDATA are not kept; of a repeated group code the last value wins; an entry without instance count gets (91, 0)
+    in a R2004+ file and a R2000 file never carries one (permitted version loss) -/
+theorem class_entry_counterexamples :
+    (classLoad [T 0 "CLASS", T 1 "A", T 2 "B", T 3 "C", T 4 "foreign", T 90 "1", T 90 "7", T 102 "{ACME", T 1 "x", T 102 "}",
+        T 280 "0", T 281 "1", T 1001 "ACAD", T 1000 "x"]).map (classExport true)
+      = some [T 0 "CLASS", T 1 "A", T 2 "B", T 3 "C", T 90 "7", T 91 "0", T 280 "0", T 281 "1"]
+    ∧ (classLoad [T 0 "CLASS", T 1 "A", T 2 "B", T 3 "C", T 90 "1", T 91 "5", T 280 "0", T 281 "1"]).map (classExport false)
+      = some [T 0 "CLASS", T 1 "A", T 2 "B", T 3 "C", T 90 "1", T 280 "0", T 281 "1"] := by
+  decide +kernel
+
+/-! ## session 3: HEADER section (load_tags, header_vars_by_priority, export_dxf with the version gate) -/
+
+/-- Custom properties over the complete header model, with NO assumption about $LASTSAVEDBY: load -> save for target version
+    `ver` writes exactly the loaded custom property pairs (once, in order) iff `ver` >= R2004, and none for older versions
+    (permitted version loss).  Uses `Gen.customFallback` and the version window of $LASTSAVEDBY in `Gen.headerVarMap`. -/
+theorem header_custom_props (ver : Nat) (verText : V) (groups : List (V × V)) :
+    (headerPass ver verText groups).filter (fun g => isCustomName g.1)
+      = if 1018 ≤ ver then customGroups (customLoad groups) else [] :=
+  (headerExport_parts ver verText (headerVars groups []) (customLoad groups) (headerVars_keys groups [] List.nodup_nil)).1
+
+/-- … so a header whose custom properties are well-formed pairs keeps them for R2004+ wherever they stand -/
+theorem header_custom_props_roundtrip (ver : Nat) (hv : 1018 ≤ ver) (verText : V) (pre post ps : List (V × V))
+    (h1 : ∀ g ∈ pre, g.1 ≠ .str sCustomTag ∧ g.1 ≠ .str sCustomProp)
+    (h2 : ∀ g ∈ post, g.1 ≠ .str sCustomTag ∧ g.1 ≠ .str sCustomProp) :
+    (headerPass ver verText (pre ++ customGroups ps ++ post)).filter (fun g => isCustomName g.1) = customGroups ps := by
+  rw [header_custom_props, custom_props_roundtrip pre post ps h1 h2, if_pos hv]
+
+/-- … and the custom property tags inside the written HEADER section of a R2004+ file are exactly those of the input, in order
+    (tag level: (9, $CUSTOMPROPERTYTAG), (1, name), (9, $CUSTOMPROPERTY), (1, value)) -/
+theorem file_custom_props (ver : Nat) (hv : 1018 ≤ ver) (verText : V) (pre post ps : List (V × V))
+    (h1 : ∀ g ∈ pre, g.1 ≠ .str sCustomTag ∧ g.1 ≠ .str sCustomProp)
+    (h2 : ∀ g ∈ post, g.1 ≠ .str sCustomTag ∧ g.1 ≠ .str sCustomProp) :
+    headerTagsOf ver ((headerPass ver verText (pre ++ customGroups ps ++ post)).filter (fun g => isCustomName g.1))
+      = ps.flatMap (fun p => [⟨9, .str sCustomTag⟩, ⟨1, p.1⟩, ⟨9, .str sCustomProp⟩, ⟨1, p.2⟩]) := by
+  rw [header_custom_props_roundtrip ver hv verText pre post ps h1 h2]
+  induction ps with
+  | nil => rfl
+  | cons p r ih =>
+    simp only [customGroups, headerTagsOf, List.flatMap_cons, List.cons_append, List.nil_append] at ih ⊢
+    rw [ih]
+    simp [headerCode, isCustomName]
+
+/-- The header variables: every variable of the file that is in HEADER_VAR_MAP and whose version window contains the target
+    version is written exactly once with its (last) value, $ACADVER with the target version; variables outside HEADER_VAR_MAP
+    (finding F24) or outside their window are not written. -/
+theorem header_vars_written (ver : Nat) (verText : V) (groups : List (V × V)) :
+    ((headerPass ver verText groups).filter (fun g => !isCustomName g.1)).Perm
+      ((dictSet (headerVars groups []) (.str sACADVER) verText).filter (fun p => inWindow ver p.1)) :=
+  (headerExport_parts ver verText (headerVars groups []) (customLoad groups) (headerVars_keys groups [] List.nodup_nil)).2
+
+/-- F24 as a theorem: a variable that is not in HEADER_VAR_MAP is never written -/
+theorem header_unknown_var_dropped (ver : Nat) (verText : V) (groups : List (V × V)) (name : V)
+    (hn : varDef name = none) (hc : isCustomName name = false) :
+    name ∉ (headerPass ver verText groups).map (·.1) := by
+  intro hm
+  obtain ⟨g, hg, rfl⟩ := List.mem_map.mp hm
+  have hf : g ∈ (headerPass ver verText groups).filter (fun g => !isCustomName g.1) := by
+    simp [List.mem_filter, hg, hc]
+  have := ((header_vars_written ver verText groups).mem_iff.mp hf)
+  simp only [List.mem_filter, inWindow, hn] at this
+  exact absurd this.2 (by simp)
+
+/-! ## session 3: ACAD_PROXY_ENTITY and ACDSDATA (binary chunks and proxy data as opaque tags) -/
+
+/-- ACAD_PROXY_ENTITY: when `DXFGraphic` writes the AcDbEntity subclass back as it was read (`gfx = s1`), a well-formed proxy
+    entity with its two subclasses (AcDbEntity, AcDbProxyEntity with all 90/91/92/93/95/310 proxy data) is written as `canon t`,
+    exactly like an entity ezdxf does not implement: proxy graphic and entity data are kept verbatim -/
+theorem proxy_entity_roundtrip (alive : V → Bool) (t : List Tag) (h : entityWF alive t = true) (e : Ent)
+    (hl : load t = .ok e) (s1 s2 : List Tag) (hs : e.subs = [s1, s2]) (he : e.embedded = []) :
+    exportProxy alive s1 e = .ok (canon t) := by
+  rw [exportProxy_eq_exportEnt alive e s1 s2 hs he]
+  have := storage_roundtrip alive t h
+  simp only [roundtrip, hl] at this
+  exact this
+
+/-- an ACDSDATA section with at least one ACDSRECORD whose records have the documented form (type tag, flags tag, sections
+    starting with a (2, name) tag; other record types arbitrary) is written verbatim: head, records in order, ENDSEC -/
+theorem acdsdata_passthrough (head : Rec) (recs : List Rec) (h : ∀ r ∈ recs, acdsRecWF r = true)
+    (hr : ∃ r ∈ recs, recType r = .str sACDSRECORD) :
+    acdsPass head recs = some (head ++ recs.flatten ++ [endsecTag]) :=
+  acdsPass_wf head recs h hr
+
+open EzdxfVerif.Storage.Ex EzdxfVerif.StorageDoc.Ex in
+/-- outside the documented forms (each replayed on the real code by the harness, stream E2):
+    a third subclass of an ACAD_PROXY_ENTITY is not written; an ACDSDATA section without ACDSRECORD is not written at all
+    ("Empty ACDSDATA section is not required"); tags between the flags tag of an ACDSRECORD and its first (2, name) tag are
+    dropped by `group_tags(…, splitcode=2)`; an unknown record between POLYLINE and SEQEND is a DXFStructureError; an entity
+    outside BLOCK … ENDBLK in the BLOCKS section and the content of a BLOCK without ENDBLK are ignored -/
+theorem document_level_counterexamples :
+    ((load proxyThree).toOption.bind fun e => (exportProxy allAlive [T 100 "AcDbEntity", T 8 "0"] e).toOption) = some proxyThreeOut
+    ∧ acdsPass acdsHead [acdsSchema] = some []
+    ∧ acdsPass acdsHead [acdsStray] = some (acdsHead ++ acdsStrayOut ++ [endsecTag])
+    ∧ (match entitiesPass exCfg [polylineRec, bareEnt, seqendRec] with | .error .link => true | _ => false) = true
+    ∧ (blocksPass exCfg exBc [S "A", S "B", S "C"] (fun _ => []) strayBlocks).toOption = some strayBlocksOut := by
+  decide +kernel
+
+/-! ## session 3: implemented classes with the generic load / export; XRECORD end to end -/
+
+/-- For ANY implemented entity class that keeps `DXFEntity.load_tags / export_dxf` (`Gen.genericTypes`: 89 of the 92 registered
+    types, incl. LINE, MTEXT, INSERT, LAYER, DICTIONARY …): the foreign structures of a well-formed record - application groups,
+    extension dictionary, reactors in the base class, every XDATA set - are written back, the base class in `canon` order, the
+    XDATA verbatim behind whatever the class writes as its body (`body`, subject of C01) -/
+theorem known_entity_structures_kept (alive : V → Bool) (t : List Tag) (h : entityWF alive t = true) (body : List Tag) :
+    ∃ t0 r items rest e, t = t0 :: r ∧ parseItems (hcOf t0.val) r none = some (items, rest) ∧ load t = .ok e
+      ∧ exportGeneric alive body e = .ok (t0 :: canonItems items ++ body ++ (restXdata rest).flatten) :=
+  generic_structures_kept alive t h body
+
+/-- every registered type is generic, a tag storage (ACAD_TABLE: the class is a `DXFTagStorage`, treated like an unknown type)
+    or one of exactly two special ones with their own models: CLASS (`classLoad` / `classExport`) and TABLE
+    (`Gen.tableHeadOrder`); a newly registered class that overrides the generic export changes the regenerated tables and
+    breaks this theorem -/
+theorem generic_types_cover :
+    registeredTypes.all (fun n => genericTypes.contains n || specialTypes.contains n || storageTypes.contains n) = true
+      ∧ specialTypes = [sCLASS, [84, 65, 66, 76, 69]]
+      ∧ storageTypes = [[65, 67, 65, 68, 95, 84, 65, 66, 76, 69]]
+      ∧ genericTypes.all (fun n => registeredTypes.contains n) = true := by
+  decide +kernel
+
+/-- TABLE heads (fix ba5d636de, now over the whole load -> export model, not only the statement order): for a head record
+    `(0, TABLE), (2, name)` + a well-formed base class + symbol-table subclass + XDATA, `TableHead` reads the name and writes
+    name, base class in `canon` order (application groups, extension dictionary, reactors kept), the symbol-table subclass with
+    the CURRENT entry count, the DIMSTYLE marker, and every XDATA set verbatim.  (Tags of the input subclass other than the count
+    are not kept - AutoCAD lists the DIMSTYLE handles there; ezdxf regenerates the head.) -/
+theorem table_head_roundtrip (alive : V → Bool) (nm cnt : V) (r : List Tag)
+    (h : entityWF alive (⟨0, .str sTABLE⟩ :: r) = true) :
+    ∃ items rest e, parseItems 5 r none = some (items, rest)
+      ∧ load (⟨0, .str sTABLE⟩ :: ⟨2, nm⟩ :: r) = .ok e
+      ∧ tableName (⟨0, .str sTABLE⟩ :: ⟨2, nm⟩ :: r) = some nm
+      ∧ (optTruthy e.handle = true →
+          exportTableHead alive cnt nm e = .ok (⟨0, .str sTABLE⟩ :: ⟨2, nm⟩ :: canonItems items
+            ++ [⟨100, .str sAcDbSymbolTable⟩, ⟨70, cnt⟩]
+            ++ (if nm == .str dimstyleStr then [⟨100, .str sAcDbDimStyleTable⟩] else [])
+            ++ (restXdata rest).flatten)) :=
+  tableHead_ok alive nm cnt r h
+
+/-- DICTIONARY entries (the map from names to foreign objects: extension dictionary -> XRECORD, named object dictionaries):
+    entries with pairwise different non-empty names, non-empty handles and one handle group code (350 soft / 360 hard owner)
+    are read by `Dictionary.load_dict` and written back by `export_dict` tag for tag and in order, wherever the 280 / 281
+    attributes stand in front of them.  (A dictionary that mixes 350 and 360 is written with the LAST code: pinned below.) -/
+theorem dictionary_entries_kept (c : Nat) (hc : c = 350 ∨ c = 360) (es : List (V × V)) (pre : List Tag)
+    (hpre : ∀ t ∈ pre, t.code = 280 ∨ t.code = 281) (hk : (es.map (·.1)).Nodup)
+    (ht : ∀ p ∈ es, truthy p.1 = true ∧ truthy p.2 = true) :
+    dictExport (dictLoad (pre ++ entryTags c es)) = entryTags c es :=
+  dictionary_entries_ok c hc es pre hpre hk ht
+
+open EzdxfVerif.Storage.Ex in
+/-- outside these hypotheses (replayed on the real code, stream X11): mixed handle codes are unified to the last one; a repeated
+    name keeps the later handle at the first position; an entry with an empty handle is not stored -/
+theorem dictionary_counterexamples :
+    dictExport (dictLoad [T 3 "A", T 350 "1", T 3 "B", T 360 "2"]) = [T 3 "A", T 360 "1", T 3 "B", T 360 "2"]
+    ∧ dictExport (dictLoad [T 3 "A", T 350 "1", T 3 "B", T 350 "2", T 3 "A", T 350 "3"]) = [T 3 "A", T 350 "3", T 3 "B", T 350 "2"]
+    ∧ dictExport (dictLoad [T 3 "A", T 350 "", T 3 "B", T 350 "2"]) = [T 3 "B", T 350 "2"] := by
+  decide +kernel
+
+/-- XRECORD end to end (the payload behind an extension dictionary): a well-formed XRECORD whose first subclass is
+    (100, AcDbXrecord), (280, cloning flag 0..5), payload - any group codes, further (100, …) tags included - without embedded
+    object is written back as `canon t`: base class in ezdxf's order, payload and XDATA tag for tag -/
+theorem xrecord_roundtrip (alive : V → Bool) (t : List Tag) (h : entityWF alive t = true) (f : Tag) (p1 : List Tag)
+    (later : List (List Tag))
+    (hsub : ∀ e, load t = .ok e → e.subs = (⟨100, .str sAcDbXrecord⟩ :: f :: p1) :: later ∧ e.embedded = [])
+    (hf : f.code = 280) (hc : fixCloning f.val = f.val) :
+    ∃ e, load t = .ok e ∧ exportXRecord alive e = .ok (canon t) := by
+  obtain ⟨t0, r, items, rest, e, re, h1, h2, h3, h4, h5, _, _, h8, h9, _⟩ := load_wf_parts alive t h
+  obtain ⟨hs, he⟩ := hsub e h3
+  refine ⟨e, h3, ?_⟩
+  have hpay : xrecordPayload xrecordKeepsLaterSubclasses e.subs = some (f.val, p1 ++ later.flatten) := by
+    simp [xrecordPayload, hs, hf, hc, xrecordKeepsLaterSubclasses]
+  have hfe : (⟨280, f.val⟩ : Tag) = f := by rw [← tag_eta f, hf]
+  have hflat : e.subs.flatten = ⟨100, .str sAcDbXrecord⟩ :: f :: (p1 ++ later.flatten) := by
+    rw [hs]; simp
+  rw [he, List.flatten_nil, List.nil_append] at h9
+  subst h1
+  simp only [exportXRecord, hpay, h4, entityOrder, List.flatMap_cons, List.flatMap_nil, List.append_nil, hfe, ← hflat, h8]
+  have hb : (⟨structureMarker, e.typ⟩ :: baseOrder.flatMap (basePart alive e re)) = t0 :: canonItems items := h5
+  rw [hb]
+  simp only [canon, h2]
+  conv => rhs; rw [← h9]
+
 /-! ## non-vacuity -/
 
 #guard entityWF allAlive widget && entityOrdered widget
@@ -309,11 +627,46 @@ theorem dup_section_name_counterexample : (passSections dupSection).toOption = s
 #guard (roundtrip allAlive widget).toOption == some widget
 #guard (roundtrip allAlive widgetShuffled).toOption == some widget
 #guard canon widgetShuffled == widget
+-- storage_idempotent_any on inputs outside EntityWF: the loader accepts them, `tieFree` holds, the second cycle is the first
+#guard [altClose, dupXdata, foreignBase, twoHandles, dupAppKey, noHandle, emptyReactors, xdictEnt].all fun t =>
+  !entityWF noneAlive t && (match load t with | .ok e => tieFree e | .error _ => false) &&
+    (match roundtrip noneAlive t with | .ok u => (roundtrip noneAlive u).toOption == some u | .error _ => false)
+-- damaged reactors (not hex, empty text): dropped at load time, the entity is written
+#guard (roundtrip allAlive [T 0 "FOO", T 5 "A", T 102 "{ACAD_REACTORS", T 330 "XYZ", T 330 "1F", T 330 "", T 102 "}", T 330 "B"]).toOption
+  == some [T 0 "FOO", T 5 "A", T 102 "{ACAD_REACTORS", T 330 "1F", T 102 "}", T 330 "B"]
+-- the hypothesis `tieFree` is needed in the model: two spellings of one number change places on every cycle
+#guard (match load [T 0 "FOO", T 5 "A", T 102 "{ACAD_REACTORS", T 330 "1F", T 330 "1f", T 102 "}", T 330 "B"] with
+  | .ok e => !tieFree e | .error _ => false)
 #guard (restXdata (widget.drop 15)).length == 2
 #guard (widget.filter isPointer).length == 9
 #guard unmanaged ⟨sSECTION, [], []⟩ && !unmanaged ⟨[72, 69, 65, 68, 69, 82], [], []⟩   -- "HEADER" is managed
 
 example : entityWF allAlive widget = true ∧ entityOrdered widget = true := by decide +kernel
 example : entityWF allAlive widgetShuffled = true ∧ entityOrdered widgetShuffled = false := by decide +kernel
+
+open EzdxfVerif.StorageDoc.Ex
+
+#guard (entitiesPass exCfg exEntities).toOption == some exEntitiesOut
+#guard (linkRecs exCfg exEntities none).toOption.map (fun gs => gs.map (fun g => g.2.length)) == some [0, 2, 0, 0, 0]
+#guard (objectsPass exCfg [widget, [T 0 "DICTIONARY", T 5 "C"]] []).toOption == some (widget ++ [T 0 "DICTIONARY", T 5 "C"])
+#guard isUnknown widget && !isUnknown [T 0 "LINE"] && !isUnknown [T 0 "ACAD_PROXY_ENTITY"] && isUnknown [T 0 "ACAD_PROXY_OBJECT"]
+#guard (blocksPass exCfg exBc [S "FB", S "*Model_Space", S "X"] (fun n => [T 0 "ORPHAN", ⟨2, n⟩]) exBlocks).toOption == some exBlocksOut
+#guard (loadSaveFile exCfg exBc [S "FB", S "*Model_Space", S "X"] (fun n => [T 0 "ORPHAN", ⟨2, n⟩]) 1024 (S "AC1024") [] (fun _ => []) [] exFile).toOption == some exFileOut
+#guard exStdClass.record true == [T 0 "CLASS", T 1 "ACME", T 2 "AcmeThing", T 3 "AcmeApp", T 90 "1153", T 91 "3", T 280 "0", T 281 "1"]
+#guard classesPass true [exStdClass.record true, exStdClass.record true] [] == some (exStdClass.record true)
+#guard headerPass 1024 (S "AC1024") exHeader == exHeaderOut2010
+#guard headerPass 1015 (S "AC1015") exHeader == exHeaderOut2000
+#guard (match load exXRecord with
+  | .ok e => e.subs == [[T 100 "AcDbXrecord", T 280 "1", T 1 "before"], [T 100 "AnyString", T 1 "after", T 310 "CAFE"]] && e.embedded == []
+      && (exportXRecord allAlive e).toOption == some exXRecord
+  | .error _ => false)
+#guard entityWF allAlive exXRecord && fixCloning (T 280 "1").val == (T 280 "1").val
+#guard ((load pspWidget).toOption.bind fun e => (exportGeneric allAlive [T 100 "AcDbEntity", T 8 "L1"] e).toOption)
+  == some [T 0 "FOO", T 5 "A1", T 330 "20", T 100 "AcDbEntity", T 8 "L1", T 1001 "ACAD", T 1004 "DEADBEEF"]
+#guard entityWF allAlive (T 0 "TABLE" :: exTableRest)
+#guard ((load (T 0 "TABLE" :: T 2 "LAYER" :: exTableRest)).toOption.bind fun e => (exportTableHead allAlive (S "3") (S "LAYER") e).toOption)
+  == some exTableOut
+#guard acdsRecWF acdsRecord && !acdsRecWF acdsStray
+#guard acdsPass acdsHead [acdsSchema, acdsRecord] == some (acdsHead ++ acdsSchema ++ acdsRecord ++ [endsecTag])
 
 end EzdxfVerif.Props.C02
